@@ -3,6 +3,7 @@ package main
 import (
 	"fmt"
 	"go/token"
+	"go/types"
 	"strings"
 
 	"golang.org/x/tools/go/ssa"
@@ -190,13 +191,24 @@ func (c *Ctx) ruleHighestLeaf() {
 	cl := f.AnonFuncs[0]
 	c.doc("R-CMP/spec", "highestLeaf fold step: `deepest = candidate` executes iff number>max || (number==max && arrival earlier) || (number==max && arrival equal && hash lower); `max` is raised iff number>max")
 	var maxFV, deepFV *ssa.FreeVar
+	// the fold state is recognised by type, not by name: the captured unsigned counter and the captured *node
+	nMax, nDeep := 0, 0
 	for _, fv := range cl.FreeVars {
-		switch fv.Name() {
-		case "max":
-			maxFV = fv
-		case "deepest":
-			deepFV = fv
+		pt, ok := fv.Type().Underlying().(*types.Pointer)
+		if !ok {
+			continue
 		}
+		if b, ok := pt.Elem().Underlying().(*types.Basic); ok && b.Info()&types.IsUnsigned != 0 {
+			maxFV = fv
+			nMax++
+		}
+		if pp, ok := pt.Elem().Underlying().(*types.Pointer); ok && strings.HasSuffix(pp.Elem().String(), "blocktree.node") {
+			deepFV = fv
+			nDeep++
+		}
+	}
+	if nMax > 1 || nDeep > 1 {
+		maxFV, deepFV = nil, nil
 	}
 	if maxFV == nil || deepFV == nil {
 		c.ob("R-CMP/spec", "highestLeaf:state", cl.Pos(), false, "fold state (max, deepest) not found")
@@ -340,7 +352,15 @@ func (c *Ctx) ruleBestBlock() {
 			if !ok {
 				return
 			}
-			if fv, ok := st.Addr.(*ssa.FreeVar); ok && fv.Name() == "highest" {
+			isIntCell := func(fv *ssa.FreeVar) bool { // the captured running maximum, recognised by type (not by name)
+				pt, ok := fv.Type().Underlying().(*types.Pointer)
+				if !ok {
+					return false
+				}
+				b, ok := pt.Elem().Underlying().(*types.Basic)
+				return ok && b.Info()&types.IsInteger != 0
+			}
+			if fv, ok := st.Addr.(*ssa.FreeVar); ok && isIntCell(fv) {
 				okMax = guardedBy(blk, func(cond ssa.Value, truth bool) bool {
 					bo, ok := cond.(*ssa.BinOp)
 					if !ok {
